@@ -793,6 +793,10 @@ impl<'a, 'o, 'c> CommonMarkFormatter<'a, 'o, 'c> {
             write!(self, "[").unwrap();
         } else {
             write!(self, "](").unwrap();
+            if nl.url.is_empty() && !nl.title.is_empty() {
+                // An empty destination followed by a title must be spelled out.
+                write!(self, "<>").unwrap();
+            }
             self.output(nl.url.as_bytes(), false, Escaping::Url);
             if !nl.title.is_empty() {
                 write!(self, " \"").unwrap();
@@ -828,6 +832,10 @@ impl<'a, 'o, 'c> CommonMarkFormatter<'a, 'o, 'c> {
             write!(self, "![").unwrap();
         } else {
             write!(self, "](").unwrap();
+            if nl.url.is_empty() && !nl.title.is_empty() {
+                // An empty destination followed by a title must be spelled out.
+                write!(self, "<>").unwrap();
+            }
             self.output(nl.url.as_bytes(), false, Escaping::Url);
             if !nl.title.is_empty() {
                 self.output(b" \"", allow_wrap, Escaping::Literal);
